@@ -21,17 +21,20 @@ package reftable
 //@ func decodeKey
 //@   props C18
 //@   nopanic
+//@   modifies nothing
 //@   ensures ok ==> 0 < n && n <= len(buf)
 //@   ensures !ok ==> n == 0
 
 //@ func decodeString
 //@   props C18
 //@   nopanic
+//@   modifies nothing
 //@   ensures ok ==> 0 < n && n <= len(buf)
 
 //@ func decodeRestartKey
 //@   props C18
 //@   nopanic
+//@   modifies nothing
 
 //@ func (*RefRecord).decode
 //@   props C18
@@ -51,7 +54,7 @@ package reftable
 //@   nopanic
 //@   modifies r.ALLFIELDS
 //@   ensures ok ==> 0 <= n && n <= len(buf)
-//@   loop 1 invariant len(r.Offsets) >= 1 && len(buf) <= old(len(buf))
+//@   loop 1 invariant len(r.Offsets) >= 1 && len(buf) <= old(len(buf)) && fresh(r.Offsets)
 //@   loop 1 decreases count
 
 //@ func (*LogRecord).decodeKey
@@ -395,7 +398,7 @@ package reftable
 
 //@ extern encoding/binary.Read
 //@   params r, order, data
-//@   modifies buflen, bufdata, asptr(data, *header).ALLFIELDS, asptr(data, *footer).ALLFIELDS, asptr(data, *uint32)
+//@   modifies buflen, bufdata, asptr(data, *header).ALLFIELDS if istype(data, *header), asptr(data, *footer).ALLFIELDS if istype(data, *footer), asptr(data, *uint32) if istype(data, *uint32)
 //@   ensures result == nil ==> buflen[iref(r)] == old(buflen[iref(r)]) - (istype(data, *header) ? 28 : (istype(data, *footer) ? 40 : 4)) && buflen[iref(r)] >= 0
 //@   ensures forall b ref :: b != iref(r) ==> buflen[b] == old(buflen[b]) && bufdata[b] == old(bufdata[b])
 
@@ -498,3 +501,85 @@ package reftable
 //@   loop 2 invariant 0 <= minSeg.start && minSeg.start + 2 <= minSeg.end && minSeg.end <= len(sizes)
 //@   loop 2 invariant exists i int :: 0 <= i && i + 1 < len(sizes) && sameClass(sizes, i)
 //@   loop 2 decreases minSeg.start
+
+// ---------------------------------------------------------------------------------------------
+// merged.go: priority queue and merged iterator (C03)
+// ---------------------------------------------------------------------------------------------
+
+// logKey(name, updateIndex): the key of a log record, name ++ NUL ++ big-endian(2^64-1-updateIndex); kept opaque.
+//@ spec logKey(name string, idx uint64) string
+//@ spec opaque keyOf(rec record) string = istype(rec, *RefRecord) ? asptr(rec, *RefRecord).RefName : (istype(rec, *LogRecord) ? logKey(asptr(rec, *LogRecord).RefName, asptr(rec, *LogRecord).UpdateIndex) : (istype(rec, *objRecord) ? str(asptr(rec, *objRecord).HashPrefix) : asptr(rec, *indexRecord).LastKey))
+//@ spec lessSpec(ak string, ai int, bk string, bi int) bool = ak < bk || (ak == bk && ai > bi)
+
+//@ func (*RefRecord).key
+//@   props C03
+//@   pure
+//@   ensures result == r.RefName
+
+//@ func (*indexRecord).key
+//@   props C03
+//@   pure
+//@   ensures result == r.LastKey
+
+//@ func (*objRecord).key
+//@   props C03
+//@   pure
+//@   ensures result == str(r.HashPrefix)
+
+// trusted: definitional (logKey is opaque; the body is a pure function of the two fields)
+//@ func (*LogRecord).key
+//@   trusted
+//@   pure
+//@   ensures result == logKey(l.RefName, l.UpdateIndex)
+
+// From the statement: key ascending, and among equal keys the newer table (greater index) first.
+//@ func pqLess
+//@   props C03
+//@   requires recAny(a.rec) && recAny(b.rec)
+//@   pure
+//@   nopanic
+//@   ensures result == lessSpec(keyOf(a.rec), a.index, keyOf(b.rec), b.index)
+
+//@ func (*mergedIterPQueue).isEmpty
+//@   props C03
+//@   pure
+//@   ensures result == (len(pq.heap) == 0)
+
+//@ func (*mergedIterPQueue).top
+//@   props C03
+//@   requires len(pq.heap) > 0
+//@   pure
+//@   nopanic
+//@   ensures result == pq.heap[0]
+
+//@ spec entryLess(pq *mergedIterPQueue, a int, b int) bool = lessSpec(keyOf(pq.heap[a].rec), pq.heap[a].index, keyOf(pq.heap[b].rec), pq.heap[b].index)
+//@ spec recsOK(pq *mergedIterPQueue) bool = forall k int :: 0 <= k && k < len(pq.heap) ==> recAny(pq.heap[k].rec)
+//@ spec ordered(pq *mergedIterPQueue) bool = forall k int :: 1 <= k && k < len(pq.heap) ==> !entryLess(pq, k, (k-1)/2)
+//@ spec heapOK(pq *mergedIterPQueue) bool = pq != nil && recsOK(pq) && ordered(pq)
+
+//@ func (*mergedIterPQueue).add
+//@   props C03
+//@   requires heapOK(pq) && recAny(e.rec)
+//@   nopanic
+//@   modifies pq.heap, pq.heap[:cap(pq.heap)]
+//@   ensures len(pq.heap) == old(len(pq.heap)) + 1 && recsOK(pq)
+//@   ensures[order] ordered(pq)
+//@   ensures heapOK(pq)
+//@   loop 1 invariant 0 <= i && i < len(pq.heap) && len(pq.heap) == old(len(pq.heap)) + 1 && pq != nil && recsOK(pq)
+//@   loop 1 invariant forall k int :: 1 <= k && k < len(pq.heap) && k != i ==> !entryLess(pq, k, (k-1)/2)
+//@   loop 1 invariant forall k int :: 1 <= k && k < len(pq.heap) && (k-1)/2 == i && i >= 1 ==> !entryLess(pq, k, (i-1)/2)
+//@   loop 1 decreases i
+
+//@ func (*mergedIterPQueue).remove
+//@   props C03
+//@   requires heapOK(pq) && len(pq.heap) > 0
+//@   nopanic
+//@   modifies pq.heap, pq.heap[:]
+//@   ensures len(pq.heap) == old(len(pq.heap)) - 1 && recsOK(pq)
+//@   ensures[order] ordered(pq)
+//@   ensures heapOK(pq)
+//@   ensures result == old(pq.heap[0])
+//@   loop 1 invariant 0 <= i && len(pq.heap) == old(len(pq.heap)) - 1 && pq != nil && recsOK(pq)
+//@   loop 1 invariant forall k int :: 1 <= k && k < len(pq.heap) && (k-1)/2 != i ==> !entryLess(pq, k, (k-1)/2)
+//@   loop 1 invariant forall k int :: 1 <= k && k < len(pq.heap) && (k-1)/2 == i && i >= 1 ==> !entryLess(pq, k, (i-1)/2)
+//@   loop 1 decreases len(pq.heap) - i
